@@ -9,7 +9,7 @@ import jax.numpy as jnp
 import z3
 
 from lvc import kit, ir
-from lvc.extract import run
+from lvc.extract import run, fork_paths, eval_traced
 from lvc.kit import Ctx, sand
 
 
@@ -45,8 +45,16 @@ def unit_constructor(specs):
             def prog(*vs, cls=cls, base=base, names=names):
                 a = cls(**dict(base, **dict(zip(names, vs))))
                 return tuple(jnp.asarray(getattr(a, n), jnp.float32) for n in names)
-            outs = run(ctx, prog, *[s[0] for s in syms])
-            S.prove(f"{cls.__name__}.__init__/stores-{'-'.join(names)}", ctx, sand(*[ir.seq(o.scalar(), s[1]) for o, s in zip(outs, syms)]), function=fn,
+            # every path through the constructor w.r.t. decisions on the symbolic values; paths on which it raises (argument validation) are loud, not silent changes
+            paths = fork_paths(prog, tuple(s[0] for s in syms), raises=(ValueError, AssertionError, TypeError))
+            ok_paths = [p for p in paths if p[0] is not None]
+            goals = []
+            for tr, dyn, dec in ok_paths:
+                conds, outs = eval_traced(ctx, tr, dyn)
+                pc = sand(*[ir.seq(c_.scalar(), d_) for c_, d_ in zip(conds, dec)])
+                goals.append(ir.simplies(pc, sand(*[ir.seq(o.scalar(), s[1]) for o, s in zip(outs, syms)])))
+            S.prove(f"{cls.__name__}.__init__/stores-{'-'.join(names)}", ctx, sand(*goals) if ok_paths else z3.BoolVal(False), function=fn,
                     replay=native_constructor_replay(cls, base, names),
-                    what=f"for all real values: the constructed {cls.__name__}'s fields {', '.join(names)} are the constructor arguments (no `value or default`, no clamping)")
+                    what=f"for all real values the constructor accepts ({len(ok_paths)} accepting of {len(paths)} paths): the constructed {cls.__name__}'s fields {', '.join(names)} are the "
+                         "constructor arguments (no `value or default`, no clamping)")
     return unit
